@@ -24,6 +24,11 @@ def gen_cases(rng, tier, drift):
     for i in range(n):
         out.append(cc.gen_case(rng, errors=(i % 6 != 0), loads=(i % 3 == 0), join_timeouts=False, unordered=True,
                                extra_after_end=rng.choice([1, 2, 3])))
+    for i in range(n // 4):
+        # oracle-only: Thread.is_alive() is a yield point of its own (see conc_common / DESIGN 3.4): no spurious error, no lost item
+        c = cc.gen_case(rng, errors=(i % 2 == 0), loads=(i % 3 == 0), join_timeouts=False, unordered=True, extra_after_end=rng.choice([1, 2]))
+        c["alive_yield"] = True
+        out.append(c)
     for i in range(nproc):
         n_items = rng.randint(3, 9)
         out.append(dict(kind="proc", n=n_items, nw=rng.choice([1, 2, 3]), die_at=rng.randint(0, n_items - 1), in_order=rng.random() < 0.7,
